@@ -66,9 +66,9 @@ CLAIMED["C09"] = dict(
     technique="Coq proof (flattening) + paired whole-simulation runs compared in Coq",
     ref="5/C09")
 CLAIMED["C10"] = dict(
-    text="Coq theorems: topics of different components never coincide and no input topic is an output topic, over constants re-extracted from the source each run (C10_topics_disjoint); a device update touches only that device's state and a component outside a tick's extent is untouched (C10_update_frame, C10_outside_extent_untouched); a whole tick of a flat level extended by a disconnected part gives every old device the same observation and state - the added part may have any behaviour, be roots of the tick or not, sit anywhere in the order (C10_tick_noninterference). Non-interference over histories is decided per pair of runs of the real classes: configuration vs configuration + disconnected devices/system simulations (91), probe adapters notified exactly once per own update, and the shipped EpicsAdapter/CommandAdapter driven without network (records of one adapter never touched by another's update).",
-    note=TB + "the virtual-time event loop, a stub for softioc's builder. PARTIAL: the multi-tick statement for the master is pairwise-tested, not proved. Integer speeds only in the pairs (rounding of the real-time deadline may differ by 1 ns otherwise, which is not an observation of any device).",
-    technique="Coq proof (topic injectivity, frame lemmas) + paired whole-simulation runs compared in Coq + adapter-level differential runs",
+    text="Coq theorems: topics of different components never coincide and no input topic is an output topic, over constants re-extracted from the source each run (C10_topics_disjoint); a device update touches only that device's state and a component outside a tick's extent is untouched (C10_update_frame, C10_outside_extent_untouched); one whole tick of a flat level and of the level extended by a disconnected part X of any behaviour, placed anywhere, roots or not, gives every old device the same observation and state (C10_tick_noninterference); whole runs from start-up in simulation time - X may have its own callbacks, causing extra and merged ticks - give every base device exactly the same observation sequence, by a stuttering simulation proved for every configuration and device behaviour (C10_run_noninterference; Model/SimTime.v is compared with the real-time master model on every applicable generated case, code 55). For nested configurations, interrupts, pacing and adapters non-interference is decided per pair of runs of the real classes: configuration vs configuration + disconnected devices/system simulations (91), probe adapters notified exactly once per own update, the shipped EpicsAdapter/CommandAdapter driven without network; topic collisions are also searched directly on the real topic functions.",
+    note=TB + "the virtual-time event loop, a stub for softioc's builder. PARTIAL: the run-level theorem covers flat simulations without interrupts in simulation time; the rest is pairwise-tested. Integer speeds only in the pairs (rounding of the real-time deadline may differ by 1 ns otherwise, which is not an observation of any device).",
+    technique="Coq proof (topic injectivity, frame lemmas, tick-level relation, stuttering simulation over whole runs) + paired whole-simulation runs compared in Coq + adapter-level differential runs",
     ref="5/C10")
 CLAIMED["C11"] = dict(
     text="Coq theorems over Model/FailStop.v for every component tree and every failing device: the stop broadcast reaches every component of every depth (C11_broadcast_reaches_subtree, C11_all_stopped); the pinned tree's behaviour (nested components not stopped) is refuted by a witness. Tied to the real code by running whole flat/nested simulations through TickitSimulation.run() where device d raises at its n-th update for every (d, n) and adapter hooks fail: which exception the master handled, which components ran stop_component, whether run() returned, whether another tick started - compared in Coq.",
